@@ -1,6 +1,7 @@
 package gen4
 
 import (
+	"bytes"
 	"math/rand/v2"
 
 	"verif/harness/ref4"
@@ -109,6 +110,8 @@ func WirePacket(r *rand.Rand, maxOpts int) ([]byte, *ref4.P4) {
 			code = 82
 		case 1:
 			code = []byte{53, 61, 55, 54, 50, 51, 1, 3, 6, 119, 121, 254, 77, 124}[r.IntN(14)]
+		case 2:
+			code = textCodes[r.IntN(len(textCodes))]
 		default:
 			code = byte(1 + r.UintN(254))
 		}
@@ -121,6 +124,9 @@ func WirePacket(r *rand.Rand, maxOpts int) ([]byte, *ref4.P4) {
 			code = byte(60 + r.UintN(30))
 		}
 		v := Bytes(r, l)
+		if bytes.IndexByte(textCodes, code) >= 0 && r.IntN(3) != 0 {
+			v = Text(r, l)
+		}
 		// split into instances
 		if l == 0 {
 			insts = append(insts, inst{code, nil})
